@@ -3,7 +3,8 @@ Proofs/PrintDates — the literal writers of `Model/Printer` against the literal
 `Model/Grammar`: integers, byte strings, dates.
 
 * integers: `natDigits n` (Lean's `toString`) is a non-empty digit string that `natOfDigits`
-  reads back as `n`;
+  reads back as `n`; a negative integer prints as `-` and the digits of its absolute value
+  (`printInt_negSucc`);
 * bytes: `printHex b` is an even number of hex digits that `bytesOfHex` reads back as `b`;
 * dates: `civilFromDays` (Hinnant's `civil_from_days`) and `daysFromCivil` are inverse on all
   days from 1970-01-01 on (`civilFromDays_spec`: month and day in range, the year below 10000
@@ -49,6 +50,11 @@ theorem natOfDigits_natDigits (n : Nat) : natOfDigits (natDigits n) = n := by
   rw [natDigits_eq, natOfDigits_eq]; exact Nat.ofDigitChars_ten_toDigits
 
 theorem printInt_ofNat (n : Nat) : printInt (n : Int) = natDigits n := rfl
+
+/-- A negative integer prints as `-` directly followed by the digits of its absolute value. -/
+theorem printInt_negSucc (m : Nat) : printInt (Int.negSucc m) = '-' :: natDigits (m + 1) := by
+  show ("-" ++ toString (m + 1)).toList = _
+  rw [String.toList_append]; rfl
 
 /-! ### Bytes -/
 
